@@ -72,13 +72,13 @@ struct arena_box {
   template <class... A>
   T& construct(A&&... a) {
     raw = usim_alloc(sizeof(T));
-    p = ::new (raw) T((A &&) a...);
+    try { p = ::new (raw) T((A &&) a...); } catch (...) { usim_free(raw); raw = nullptr; throw; }
     return *p;
   }
   template <class F>
   T& construct_with(F&& f) {
     raw = usim_alloc(sizeof(T));
-    p = ::new (raw) T(((F &&) f)());
+    try { p = ::new (raw) T(((F &&) f)()); } catch (...) { usim_free(raw); raw = nullptr; throw; }
     return *p;
   }
   void destroy() {
